@@ -217,7 +217,7 @@ class Check:
         for fid, info in sorted(t.known.items()):
             if fid in open_ids:
                 print(f"KNOWN-FINDING: property={self.pid} {fid}: {open_ids[fid]['what']} "
-                      f"({info['count']} cases, first: {json.dumps(info['first'])[:300]})")
+                      f"({info['count']} cases, first: {json.dumps(info["first"])[:160]})")
             else:
                 viols.append({"case": info["first"].get("case"), "msg": f"unlisted finding {fid}: " + str(info["first"].get("msg"))})
         os.makedirs(REPLAY_DIR, exist_ok=True)
